@@ -89,6 +89,8 @@ class CallMixin:
             return T(BOOL, f"({name} ((|q_{var}| {sort_smt(sort)})) {b.s})")
         if name == "Some":
             return some(c, self.ev(n.args[0], st, old))
+        if name == "val":
+            return unopt(self.ev(n.args[0], st, old))
         if name == "ite":
             t = self.truth(self.ev(n.args[0], st, old))
             a, b = self.unify(self.ev(n.args[1], st, old), self.ev(n.args[2], st, old))
